@@ -4,7 +4,7 @@
    rfc_decode / rfc_repr / rfc_int / rfc_string / rfc_huff_decode are the RFC 7541 reference (specification). *)
 From Coq Require Import List ZArith Bool.
 From Bfe Require Import lib.Val lib.Bytes gen.HpackTables model.Huffman model.Hpack run.RunC31
-  proofs.HuffmanProofs proofs.HuffmanTrieProofs proofs.HuffmanEquivProofs proofs.HpackProofs proofs.HpackRfcProofs proofs.HpackIncrProofs proofs.HpackLimProofs proofs.HpackEmitProofs proofs.HpackC31Proofs.
+  proofs.HuffmanProofs proofs.HuffmanTrieProofs proofs.HuffmanEquivProofs proofs.HpackProofs proofs.HpackRfcProofs proofs.HpackIncrProofs proofs.HpackLimProofs proofs.HpackEmitProofs proofs.HpackSafeProofs proofs.HpackC31Proofs.
 Import ListNotations.
 Open Scope Z_scope.
 
@@ -54,12 +54,18 @@ Theorem C31_emit_independent : forall hd M, 0 <= M -> forall d b chunks dd fs,
 Proof. exact emit_independent. Qed.
 Print Assumptions C31_emit_independent.
 
+(* NO PANIC, any mode: for every Huffman decoder that does not panic, every string limit, emit budget, chunking of
+   byte strings and starting state satisfying the table invariant, the model never reaches a panic site. *)
+Theorem C31_never_panics : forall hd, (forall v, hd v <> HPanic) -> forall M chunks d b acc,
+  safe_state d -> forallb wf_bytes chunks = true ->
+  let '(dd, _, st) := dec_run_e hd M d b chunks acc in st <> ST_PANIC.
+Proof. exact run_e_safe. Qed.
+Print Assumptions C31_never_panics.
+
 (* CENTRAL THEOREM: on every well-formed wire input the model's output satisfies the executable property that the
    harness evaluates on the implementation's observation (no finding class: kf_C31 = 0 everywhere).
    wf_C31: table size >= 0, bytes in range, default string-length limit (SetMaxStringLength not called), any emit
-   budget k if the reference accepts the input, k < 0 (emit never disabled) otherwise; the remaining generated inputs
-   (string limit set; emit disabled on an input the reference rejects) are checked against model and property but are
-   outside this theorem.
+   budget; generated inputs with a string limit are checked against model and property but are outside this theorem.
    run_C31 uses the bit-level Huffman decoder; agree_C31 additionally requires the byte-trie transcription
    (huff_decode) to give the same observation - see C31_trie_step_agrees and level_note. *)
 Theorem C31_central : forall i, wf_C31 i = true -> kf_C31 i = 0 -> prop_C31 i (run_C31 i) = true.
